@@ -32,7 +32,10 @@ def queries(A: Analysis) -> Dict[str, dict]:
         try:
             out[name] = parse(v)
         except SqlUnrecognised as ex:
-            raise AnalysisError("query %s is outside the recognised SQL subset: %s" % (name, ex))
+            # not a verdict by itself: the rule that needs this query reports that it
+            # cannot establish the required form (and shows the text)
+            out[name] = {"type": "unrecognised", "error": str(ex), "text": " ".join(v.split())[:200], "columns": [], "from": None,
+                         "where": None, "order_by": None, "limit": None, "joins": [], "group_by": None}
     return out
 
 
